@@ -219,15 +219,18 @@ def optBind {α β} (o : Option α) (f : α → Option β) : Option (Option β) 
     | none => none
     | some b => some (some b)
 
+/-- half_space.py:UnitHalfSpace.update_pointers — `self._divider = container[self._divider]` with the cells
+    (for `#n`) or the surfaces as container -/
+def linkLeaf (cells surfs : St) (l : Bool × Int) : Option Leaf :=
+  (lookup (if l.1 then cells else surfs) l.2).map (fun t => { isCell := l.1, target := t })
+
 /-- cell.py:Cell.update_pointers (`materials[self.old_mat_number]`), half_space.py:UnitHalfSpace.update_pointers
     (`container[self._divider]`), universe_input.py:UniverseInput.push_to_cells (`universes[uni_num]`),
     fill.py:Fill.push_to_cells (`universes[number]`, `transforms[self.old_transform_number]`) for cell card `i` -/
 def linkCell (wf : WFile) (cells surfs mats trs univs : St) (i : Nat) : Option CellL := do
   let c ← wf.cells[i]?
   let mat ← if c.mat = 0 then some none else (lookup mats c.mat).map some
-  let geom ← c.geom.mapM (fun (l : Bool × Int) => do
-    let t ← lookup (if l.1 then cells else surfs) l.2
-    pure ({ isCell := l.1, target := t } : Leaf))
+  let geom ← c.geom.mapM (linkLeaf cells surfs)
   let univ ← lookup univs (oldUniverseNumber wf i)
   let fill ← (oldFillNumbers wf i).mapM (lookup univs)
   let fillTr ← optBind c.fillTr (lookup trs)
